@@ -48,6 +48,10 @@ add('C03','benign-nil-index',ND,"		n.children = n.children[:0]\n		n.buildIndexes
 add('C03','benign-fresh-map',ND,"	if n.indexes == nil {\n		n.indexes = make(map[byte]int, indexesSize)\n	}\n	clear(n.indexes)","	n.indexes = make(map[byte]int, indexesSize)",'silent','fresh map on every rebuild')
 
 # ---------------- C04
+add('C03','clean-breaks-early',ND,"			if strings.HasPrefix(prefix, child.segment.Value) {\n				child.clean(prefix[len(child.segment.Value):])\n			}","			if strings.HasPrefix(prefix, child.segment.Value) {\n				child.clean(prefix[len(child.segment.Value):])\n				break\n			}",'violation:C03.R4')
+add('C03','remove-all-by-default-list',TR,"	if len(methods) == 0 {\n		child.handlers = nil\n	} else {","	if len(methods) == 0 {\n		methods = AnyMethods\n	}\n	{",'violation:C03.R5')
+add('C03','resource-clean-cleans-tree',RO,"func (r *Resource[T]) Clean() { r.router.Remove(r.pattern) }","func (r *Resource[T]) Clean() { r.router.tree.Clean(r.pattern) }",'violation:C03.R6')
+add('C03','benign-remove-all-clear',TR,"	if len(methods) == 0 {\n		child.handlers = nil\n	} else {","	if len(methods) == 0 {\n		clear(child.handlers)\n	} else {",'silent')
 add('C04','reintroduce-node-copy',ND,"	n.segment = segs[1] // ‰øùÁïô n Êú¨Ë∫´ÔºåOPTIONS Âíå 405 ÁöÑÂ§ÑÁêÜÊñπÊ≥ïÂºïÁî®ÁöÑÊòØËØ•ÂÆû‰æã„ÄÇ\n	n.parent = ret\n	ret.children = append(ret.children, n)\n","	c := ret.newChild(segs[1])\n	c.handlers = n.handlers\n	c.methodIndex = n.methodIndex\n	c.children = n.children\n	c.indexes = n.indexes\n	for _, item := range c.children {\n		item.parent = c\n	}\n",'violation:C04.R2')
 add('C04','drop-root-summary-build',TR,"	tree.buildMethods(0)\n\n	if lock {","	if lock {",'violation:C04.R3')
 add('C04','drop-trace-clause-node',ME,"	if n.root.hasTrace {\n		n.methodIndex += methodIndexMap[http.MethodTrace]\n	}\n	buildMethodIndexes(n.methodIndex)","	buildMethodIndexes(n.methodIndex)",'violation:C04.R3')
@@ -57,6 +61,16 @@ add('C04','decrement-by-caller-list',TR,"	tree.recountMethods() // methods ‰∏≠Âè
 add('C04','drop-node-summary-in-addMethods',ME,"	n.buildMethods()\n	n.root.buildMethods(1, methods...)","	n.root.buildMethods(1, methods...)",'violation:C04.R1')
 add('C04','options-built-for-root',ME,"ApplyMiddleware(n.root.optionsBuilder(n), http.MethodOptions","ApplyMiddleware(n.root.optionsBuilder(n.root.node), http.MethodOptions",'violation:C04.R2')
 add('C04','benign-local-alias',ME,"	n.buildMethods()\n	n.root.buildMethods(1, methods...)","	n.buildMethods()\n	root := n.root\n	root.buildMethods(1, methods...)",'silent')
+
+add('C04','builder-skips-head',ME,"	for method := range n.handlers {\n		n.methodIndex += methodIndexMap[method]\n	}","	for method := range n.handlers {\n		if method != http.MethodHead {\n			n.methodIndex += methodIndexMap[method]\n		}\n	}",'violation:C04.R5')
+add('C04','renderer-inverted',ME,"		if index&i == i {","		if index&i == 0 {",'violation:C04.R5')
+add('C04','renderer-join-comma',ME,'options: strings.Join(methods, ", "),','options: strings.Join(methods, ","),','violation:C04.R5')
+add('C04','table-shared-bits',ME,"		methodIndexMap[m] = 1 << i","		methodIndexMap[m] = 1 << (i / 2)",'violation:C04.R5')
+add('C04','allow-of-root',ME,"func (n *node[T]) AllowHeader() string { return getMethodIndexEntity(n.getMethodIndex()).options }","func (n *node[T]) AllowHeader() string { return getMethodIndexEntity(n.root.node.getMethodIndex()).options }",'violation:C04.R5')
+add('C04','benign-renderer-neq-zero',ME,"		if index&i == i {","		if index&i != 0 {",'silent')
+add('C04','routes-liveness-by-summary',ND,"	if n.size() > 0 { // methodIndex Âú® hasTrace Êó∂ÔºåÂç≥‰ΩøÊ≤°Êúâ‰ªª‰ΩïÂ§ÑÁêÜÂáΩÊï∞‰πü‰∏ç‰∏∫Èõ∂„ÄÇ","	if n.methodIndex > 0 {",'violation:C04.R7')
+add('C04','recount-skips-trace',ME,"		if m != http.MethodHead && m != http.MethodOptions && m != methodNotAllowed {","		if m != http.MethodHead && m != http.MethodOptions && m != methodNotAllowed && m != http.MethodTrace {",'violation:C04.R4c')
+add('C04','conditional-recount',TR,"	tree.node.clean(prefix)\n	tree.recountMethods()","	tree.node.clean(prefix)\n	if len(tree.node.children) == 0 {\n		tree.recountMethods()\n	}",'violation:C04.R4a')
 
 # ---------------- C05
 add('C05','drop-root-405',TR,"		methodNotAllowed:   tree.methodNotAllowedBuilder(tree.node),\n","",'violation:C05.R1a')
